@@ -156,11 +156,12 @@ struct Runner {
     }
 
     static const std::vector<std::pair<std::string, bool>> &delims() {
-        static const std::vector<std::pair<std::string, bool>> d = {{"", true}, {" ", false}, {":", false}, {" :", false}, {"", false}};
+        // (the last two sets contain a quote character: as a delimiter it separates and can never open a quoted section)
+        static const std::vector<std::pair<std::string, bool>> d = {{"", true}, {" ", false}, {":", false}, {" :", false}, {"", false}, {"' ", false}, {"\":", false}};
         return d;
     }
     void item(const Op &op) {
-        if (op.name == "tok") { int di = (int)(((op.i(0) % 5) + 5) % 5); tokens(op.s(0), op.strs.size() > 1 ? op.s(1) : delims()[(size_t)di].first, op.strs.size() > 1 ? false : delims()[(size_t)di].second); }
+        if (op.name == "tok") { int di = (int)(((op.i(0) % 7) + 7) % 7); tokens(op.s(0), op.strs.size() > 1 ? op.s(1) : delims()[(size_t)di].first, op.strs.size() > 1 ? false : delims()[(size_t)di].second); }
         else if (op.name == "words") words(op.s(0));
         else if (op.name == "join") { std::vector<std::string> t(op.strs.begin() + 1, op.strs.end()); roundtrip(t, op.s(0)); }
         else ctx.fail("harness", "unknown op " + op.name);
@@ -171,7 +172,7 @@ struct Runner {
         std::string s;
         std::function<void(long)> rec = [&](long d) {
             if (k++ % nparts == part) {
-                for (int di = 0; di < 5; di++) { Op it = mk("tok", {di}, {s}); ctx.progress(op_to_text(it)); item(it); }
+                for (int di = 0; di < 7; di++) { Op it = mk("tok", {di}, {s}); ctx.progress(op_to_text(it)); item(it); }
                 Op it = mk("words", {}, {s}); ctx.progress(op_to_text(it)); item(it);
             }
             if (d == L) return;
@@ -206,7 +207,7 @@ rc::Gen<Case> gen_case() {
     return rc::gen::exec([]() {
         Case c;
         int k = (int)*range(0, 9);
-        static const std::vector<std::string> dsets = {" \t\n", " ", ":", " :", ",;", ""};
+        static const std::vector<std::string> dsets = {" \t\n", " ", ":", " :", ",;", "", "' ", "\":", "'\""};
         if (k < 5) {
             bool dnull = *range(0, 2) == 0;
             std::string dset = dnull ? " \t\n" : *rc::gen::elementOf(dsets);
